@@ -32,6 +32,7 @@ var checks = map[string]checkFn{
 	"C13": hand.RunC13,
 	"C14": hand.RunC14,
 	"C15": hand.RunC15,
+	"C07": hand.RunC07,
 	"C10": hand.RunC10,
 	"C09": tourney.RunC09,
 	"C19": tourney.RunC19,
@@ -49,6 +50,7 @@ var replayers = map[string]func(v *explore.Violation) (bool, string){
 	"hand-shuffle": hand.ReplayShuffle,
 	"pots":         pots.Replay,
 	"hand-c10":     hand.ReplayC10,
+	"hand-c07":     hand.ReplayC07,
 	"seats":        seats.Replay,
 	"tourney":      tourney.ReplayViolation,
 	"seats-conc":   seats.ReplayConcurrent,
